@@ -4,3 +4,4 @@ import ArimModel.Fermat
 import ArimModel.Chunk
 import ArimModel.Frame
 import ArimModel.Config
+import ArimModel.Views
